@@ -219,6 +219,28 @@ theorem invId_step {c : Conn α} (hw : Inv c) (h : InvId c) (l : Label α) : Inv
   | sclose req retry => exact invId_sclose hw h _ _
   | «end» => exact h
   | evict _ _ => exact h
+  | wroute msg ctx ctxNew =>
+    show InvId (wrouteR c msg ctx ctxNew).1
+    unfold wrouteR
+    split
+    · exact h
+    · split
+      · exact invId_frame (c' := eraseResp c msg) h (by simp; exact ExNoId.refl _)
+      · split
+        · exact invId_frame (c' := eraseResp c msg) h (by simp; exact ExNoId.refl _)
+        · exact invId_frame (c' := { eraseResp c msg with pendW := _ }) h (by simp; exact ExNoId.refl _)
+  | wdeliver i =>
+    show InvId (wdeliverR c i).1
+    unfold wdeliverR
+    split
+    · exact h
+    · rename_i pw hpw
+      have hw1 : Inv ({ c with pendW := c.pendW.eraseIdx i } : Conn α) :=
+        inv_pendW hw _ (fun x hx => hw.pend_lt x (mem_eraseIdx hx))
+      split
+      · rename_i s hs
+        exact invId_writeTo (c := { c with pendW := c.pendW.eraseIdx i }) hw1 h (findStream_some hs).1 _ _ _
+      · exact h
 
 theorem invId_runFrom {c : Conn α} (hw : Inv c) (h : InvId c) (ls : List (Label α)) : InvId (run c ls) := by
   induction ls generalizing c with
